@@ -204,9 +204,10 @@ ParseTab(layout, val) ==
     [] layout = 3 /\ val = <<"2","5","/","1","2","/","1","9","7","0">> -> "dmY-2512"
     [] layout = 1 /\ val = <<"1","9","7","0","-","0","1","-","0","2","T","0","3",":","0","4",":","0","5","Z">> -> "rfc-a"
     [] layout = 4 /\ val = <<"0","3","/","0","4">> -> "y0-0304"          \* no year in the layout: year 0
+    [] layout = 4 /\ val = <<"1","2","/","3","0">> -> "y0-1230"
     [] OTHER -> ""
 \* instants of year 0 are only representable (as datum nanoseconds) once the current year is substituted
-Yearless == {"y0-0304"}
+Yearless == {"y0-0304", "y0-1230"}
 
 -----------------------------------------------------------------------------
 (* State threaded through the evaluation of one line                       *)
